@@ -37,6 +37,38 @@ def strip_superchip(p):
     return q
 
 
+def pointer_programs(rng, n):
+    """pointer VARIABLES living in split-port RAM: ++/--/+= on the pointer itself (16 bits, no
+    read-modify-write instruction allowed), a copy to an ordinary pointer, no dereference (the
+    pointer's value is arbitrary)"""
+    from lib.gen_c import Prog
+    out = {}
+    V = lambda x: ('var', x)
+    for i in range(n):
+        p = Prog()
+        p.globals = [('unsigned char *', 'p', None, None, 'superchip'), ('unsigned char *', 'q', None, None, rng.choice(['', 'superchip'])),
+                     ('unsigned char', 'a', None, None, rng.choice(['', 'superchip'])), ('unsigned char', 'i', None, None, '')]
+        p.funcs = []
+        st = []
+        for _ in range(rng.randrange(1, 4)):
+            k = rng.randrange(7)
+            tgt = V(rng.choice(['p', 'p', 'q']))
+            if k < 3:
+                st.append(('expr', ('inc', rng.choice(['x++', '++x', 'x--', '--x']), tgt)))
+            elif k == 3:
+                st.append(('expr', ('asg', '=', V('q'), V('p'))))
+            elif k == 4:
+                st.append(('for', ('asg', '=', V('i'), ('num', 0)), ('bin', '!=', V('i'), ('num', rng.randrange(1, 4))), ('inc', 'x++', V('i')),
+                           ('block', [('expr', ('inc', rng.choice(['x++', 'x--']), tgt))])))
+            elif k == 5:
+                st.append(('if', V('a'), ('block', [('expr', ('inc', rng.choice(['x++', 'x--']), tgt))]), None))
+            else:
+                st.append(('expr', ('asg', '=', V('p'), V('q'))))
+        p.main = st
+        out['ptr%d' % i] = p
+    return out
+
+
 def twin_results(progs, O, nstates, rng):
     """-> {pid: (verdict, detail, meta)}; verdict in agree | FAULT | DIFF | rejected"""
     srcs = {k: {'sc': p.source(), 'plain': strip_superchip(p).source()} for k, p in progs.items()}
@@ -141,6 +173,7 @@ def run(ctx):
         progs = {'p%d' % i: gen_program(rng, dict(superchip=True, signed=(i % 3 == 0), shorts=(i % 2 == 0), bait=(i % 4 == 0)))
                  for i in range(n_prog)}
         progs = {k: p for k, p in progs.items() if any(q for (_, _, _, _, q) in p.globals)}
+        progs.update(pointer_programs(rng, 60 if quick else 1500))
         res = twin_results(progs, O, 8 if quick else 24, rng)
         for pid, (v, d, src) in res.items():
             stats[v] = stats.get(v, 0) + 1
